@@ -108,7 +108,7 @@ func Load(opt LoadOptions) (*Program, error) {
 		p.errorsNewT = types.NewPointer(ep.Type("errorString").Object().Type())
 	}
 	p.initAllow = map[string]bool{}
-	for _, s := range []string{"errors", "io", "bufio", "encoding/binary", "bytes", "strings", "strconv", "unicode/utf8", "sort", "slices", "maps", "math", "math/bits", "io/fs", "internal/oserror", "internal/bytealg", "internal/byteorder", "cmp", "iter", "unicode/utf16", "internal/stringslite", "internal/itoa", "syscall", "container/list", "container/heap", "net/url", "path", "context", "golang.org/x/sync/singleflight"} {
+	for _, s := range []string{"errors", "io", "bufio", "encoding/binary", "bytes", "strings", "strconv", "unicode/utf8", "sort", "slices", "maps", "math", "math/bits", "io/fs", "internal/oserror", "internal/bytealg", "internal/byteorder", "cmp", "iter", "unicode/utf16", "internal/stringslite", "internal/itoa", "syscall", "container/list", "container/heap", "net/url", "path", "context", "golang.org/x/sync/singleflight", "github.com/reugn/go-quartz/quartz", "github.com/reugn/go-quartz/job", "github.com/reugn/go-quartz/logger", "github.com/reugn/go-quartz/internal/csm"} {
 		p.initAllow[s] = true
 	}
 	registerExternals(p)
